@@ -10,6 +10,7 @@ OCAML = os.path.join(VERIF, 'ocaml')
 EVID = os.path.join(VERIF, 'evidence')
 REPLAY = os.path.join(EVID, 'replay')
 NPROC = 16
+CHUNK_TIMEOUT = 240      # seconds a worker process may spend on its share of the cases
 
 ENV = dict(os.environ, CARGO_NET_OFFLINE='true')
 # the harness always builds into its own target directory, whatever the caller's environment says
@@ -173,7 +174,7 @@ def check_proofs(prop):
     # every theorem must be pinned by a Check line with an explicit statement
     nocom = strip_comments(src)
     for n in names:
-        if not re.search(r'Check\s+%s\s*:' % re.escape(n), nocom):
+        if not re.search(r'Check\s+(?:\(\s*@\s*%s\s*\)|@?%s)\s*:' % (re.escape(n), re.escape(n)), nocom):
             res['failures'].append('theorem %s has no pinning Check line' % n)
     # assumptions, from a fresh coqc run against the compiled library
     tmpd = os.path.join(COQ, '.assume')
@@ -235,7 +236,12 @@ def _run_chunk(exe, chunk, env):
         guard += 1
         p = subprocess.Popen([exe], stdin=subprocess.PIPE, stdout=subprocess.PIPE, stderr=subprocess.PIPE,
                              text=True, env=env, cwd='/', errors='replace')
-        o, e = p.communicate('\n'.join(rest) + '\n')
+        try:
+            o, e = p.communicate('\n'.join(rest) + '\n', timeout=CHUNK_TIMEOUT)
+        except subprocess.TimeoutExpired:
+            p.kill()
+            o, e = p.communicate()
+            e = (e or '') + '\nTIMEOUT: the process did not finish a case within %d s' % CHUNK_TIMEOUT
         got = o.split('\n')
         if got and got[-1] == '':
             got.pop()
@@ -243,7 +249,7 @@ def _run_chunk(exe, chunk, env):
         res.extend(got)
         if len(got) >= len(rest):
             break
-        why = 'alloc' if 'memory allocation of' in e or 'capacity overflow' in e else ('stack' if 'overflowed its stack' in e else 'other')
+        why = 'timeout' if 'TIMEOUT:' in e else 'alloc' if 'memory allocation of' in e or 'capacity overflow' in e else ('stack' if 'overflowed its stack' in e else 'other')
         res.append('CRASH exit=%s why=%s %s' % (p.returncode, why, ' '.join(e.strip().split('\n')[:1])[:160]))
         rest = rest[len(got) + 1:]
     if len(res) < len(chunk):
